@@ -234,14 +234,105 @@ def same_name_histories(ctx):
                     pass
 
 
+def registration_forms(ctx):
+    """Which entry class addresses the children of a class registered through the class decorator:
+    {no TREE_PATH_ENTRY_TYPE, own, inherited} x attribute value x explicit path_entry_type= {None + 3 classes}
+    x 3 call forms.  Expected: explicit argument, else class attribute, else AutoEntry -- and the accessors
+    built with it reach the leaves (the class only supports the access style of the expected entry class)."""
+    from optree.accessor import AutoEntry, GetAttrEntry, MappingEntry, SequenceEntry  # noqa: PLC0415
+
+    from mc.universe import Leaf  # noqa: PLC0415
+
+    styles = {'GetAttrEntry': GetAttrEntry, 'SequenceEntry': SequenceEntry, 'MappingEntry': MappingEntry}
+    decls = [('absent', None)] + [(d, a) for d in ('own', 'inherited') for a in styles]
+    n = 0
+    for decl, attr in decls:
+        for explicit in (None, *styles):
+            for form in ('direct', 'kw-factory', 'positional-factory'):
+                n += 1
+                ns = f'ns4-form-{n}'
+                want_name = explicit or attr or 'AutoEntry'
+                want = styles.get(want_name, AutoEntry)
+
+                class Base:
+                    if decl == 'inherited':
+                        TREE_PATH_ENTRY_TYPE = styles[attr]
+
+                class Node(Base):
+                    if decl == 'own':
+                        TREE_PATH_ENTRY_TYPE = styles[attr]
+
+                    def __init__(self, a, b):
+                        object.__setattr__(self, '_v', {'a': a, 'b': b})
+
+                    def __getattr__(self, name):
+                        if want_name == 'GetAttrEntry' and name in ('a', 'b'):
+                            return self._v[name]
+                        raise AttributeError(name)
+
+                    def __getitem__(self, k):
+                        if want_name == 'SequenceEntry' and k in (0, 1):
+                            return self._v['ab'[k]]
+                        if want_name == 'MappingEntry' and k in ('a', 'b'):
+                            return self._v[k]
+                        raise KeyError(k)
+
+                    def tree_flatten(self):
+                        ents = (0, 1) if want_name == 'SequenceEntry' else ('a', 'b')
+                        return (self._v['a'], self._v['b']), None, (None if want_name == 'AutoEntry' else ents)
+
+                    @classmethod
+                    def tree_unflatten(cls, metadata, children):
+                        return cls(*children)
+
+                kw = {} if explicit is None else {'path_entry_type': styles[explicit]}
+                ctx.count()
+                ctx.cls(('registration-form', decl, attr, explicit, form))
+                case = {'registration_form': form, 'class_attribute': [decl, attr], 'explicit': explicit}
+                try:
+                    if form == 'direct':
+                        r = optree.register_pytree_node_class(Node, namespace=ns, **kw)
+                    elif form == 'kw-factory':
+                        r = optree.register_pytree_node_class(namespace=ns, **kw)(Node)
+                    else:
+                        r = optree.register_pytree_node_class(ns, **kw)(Node)
+                    leaves = [Leaf(1), Leaf(2)]
+                    tree = [Node(*leaves)]
+                    accs, lvs, _ = optree.tree_flatten_with_accessor(tree, namespace=ns)
+                    got = [type(a[-1]).__name__ for a in accs]
+                    reach = [outcome_of(lambda a=a: a(tree)) for a in accs]
+                    reg = optree.register_pytree_node.get(Node, namespace=ns).path_entry_type
+                    ok = r is Node and reg is want and all(x is y for x, y in zip(lvs, leaves))
+                    if want is not AutoEntry:
+                        ok = ok and got == [want_name] * 2 and all(
+                            o[0] == 'ok' and o[1] is leaf for o, leaf in zip(reach, leaves))
+                    if not ok:
+                        ctx.violation('registration-form-entry-class', f'{PROP}:class-decorator:wrong-entry-class', case,
+                                      f'expected entry class {want_name}; registry says {reg!r}; accessors use {got!r}; '
+                                      f'accessor(tree) -> {reach!r}')
+                    ctx.outcome(f'registration-form:{want_name}')
+                finally:
+                    try:
+                        optree.unregister_pytree_node(Node, namespace=ns)
+                    except Exception:  # noqa: BLE001
+                        pass
+
+
 def run_shard(ctx):
     if ctx.shard == 0:
         same_name_histories(ctx)
+    if ctx.shard == 1 % ctx.nshards:
+        registration_forms(ctx)
     e1.drive(ctx, ctx.tier, lambda tree, leaves, dsl, cfg: check(ctx, tree, leaves, dsl, cfg),
              profile='small' if ctx.tier == 'quick' else 'full')
 
 
 def replay(case, ctx):
+    c = case['case']
+    if 'registration_form' in c:
+        return registration_forms(ctx)  # the whole 84-case product is re-run (cheap); the case names the failing cell
+    if 'same_name_history' in c or 'same_name_dataclass' in c:
+        return same_name_histories(ctx)
     e1.replay_case(case['case'], lambda tree, leaves, dsl, cfg: check(ctx, tree, leaves, dsl, cfg))
 
 
